@@ -8,5 +8,7 @@ CONSTANTS
   Variant = "bound"
   FirstIp = "a1"
   FirstAgent = "u1"
+  XNames = {}
+  MaxExtra = 0
 INVARIANT Conforms
 CHECK_DEADLOCK FALSE
